@@ -12,6 +12,10 @@ CLAIMED = {
    text='Seeded operation histories (add* sort query*)+ over two FeatureContainers sharing the process-global LRU memo, with repeated queries across re-indexing and LRU churn through the second container; every point/range/aligned-read result is compared as a set with a brute-force list model, operation by operation. Sampled histories: evidence, not proof.',
    note='Trusts the list model and pysam block semantics (half-open). Un-indexed queries are preceded by sort() by the harness. No fault/clock exists on this surface; the simulator owns the history only.',
    tech='deterministic simulation: seeded operation histories against an executable reference model, checked per operation; ddmin-minimised replay files'),
+ 'C07': dict(engine='eject', cat='exploration', design='5 C07',
+   text='For each seeded coordinate-sorted fragment sequence (<=60 NLA fragments, duplicates arriving after unrelated molecules became ejectable, fragment+read length <= cache_size/2) EVERY check_eject_every in {None,0..n} x both pooling methods is executed on the real MoleculeIterator; oracle: partition equals the never-eject partition and the ground-truth classes, every fragment yielded exactly once, no molecule emitted while a later fragment of its group is still to arrive. Schedules exhaustive per input; inputs sampled.',
+   note='Trusts the arrival-order model of a coordinate-sorted BAM (tuples sorted by the later mate start) and the cache_size/2 precondition argument in DESIGN.md.',
+   tech='deterministic simulation: exhaustive ejection-schedule enumeration per seeded workload against ground truth and a schedule-free reference run; ddmin replay files'),
 }
 NA = {
  'C02': 'Pure function of (strategy layout, read pair): fixed slices of two strings; no stream state, schedule, clock, fault or history for a simulator to choose.',
